@@ -22,6 +22,8 @@ pub struct CallObs {
     pub in_bounds_pixels: u64,
     pub pulls: u64,
     pub spi_transactions: u64,
+    /// SPI only: per pixel burst (bytes, transactions that carried or terminated it)
+    pub spi_bursts: Vec<(u64, u64)>,
 }
 
 pub struct Session {
@@ -64,9 +66,20 @@ impl Session {
     pub fn call(&mut self, op: &DrawOp) -> Result<CallObs, String> {
         let pulls = std::cell::Cell::new(0u64);
         let spi0 = self.w.borrow().spi_transactions;
+        let spi = matches!(self.cfg.transport, Transport::Spi { .. });
+        if spi {
+            let mut wb = self.w.borrow_mut();
+            wb.raw_on = true;
+            wb.raw.clear();
+        }
         let r = self.dut.run(op, &pulls);
         let n = self.img.apply(op, self.bits);
         let mut wb = self.w.borrow_mut();
+        let spi_bursts = if spi { spi_burst_transactions(&wb.raw) } else { Vec::new() };
+        if spi {
+            wb.raw_on = false;
+            wb.raw.clear();
+        }
         let obs = CallObs {
             trace: wb.panel.take_trace(),
             bursts: wb.panel.take_bursts(),
@@ -75,6 +88,7 @@ impl Session {
             in_bounds_pixels: n,
             pulls: pulls.get(),
             spi_transactions: wb.spi_transactions - spi0,
+            spi_bursts,
         };
         drop(wb);
         match r {
@@ -88,6 +102,46 @@ impl Session {
         let wb = self.w.borrow();
         compare_memory(&self.cfg, self.orient, &self.img, &wb.panel)
     }
+}
+
+/// From the raw SPI log of one call: for every memory-write-start, the number of data bytes that
+/// followed and the number of transactions that carried them. The (possibly empty) parameter write
+/// that belongs to the command itself is not counted; an empty write that ends a burst is.
+pub fn spi_burst_transactions(raw: &[crate::rig::Raw]) -> Vec<(u64, u64)> {
+    use crate::rig::Raw;
+    let mut out: Vec<(u64, u64)> = Vec::new();
+    // 0: outside, 1: just saw RAMWR (the next empty data write is the command's parameter write), 2: in burst
+    let mut state = 0;
+    for r in raw {
+        if let Raw::Spi { dc, bytes, ok, .. } = r {
+            if !ok {
+                continue;
+            }
+            match dc {
+                Some(false) => {
+                    if bytes.as_slice() == [0x2C] {
+                        out.push((0, 0));
+                        state = 1;
+                    } else {
+                        state = 0;
+                    }
+                }
+                Some(true) => {
+                    if state == 1 && bytes.is_empty() {
+                        state = 2;
+                    } else if state == 1 || state == 2 {
+                        state = 2;
+                        if let Some(b) = out.last_mut() {
+                            b.0 += bytes.len() as u64;
+                            b.1 += 1;
+                        }
+                    }
+                }
+                None => {}
+            }
+        }
+    }
+    out
 }
 
 pub fn op_name(op: &DrawOp) -> &'static str {
